@@ -27,7 +27,7 @@ Lemma refresh_d_unfold : forall answer ll adv attempts c tried dl,
     | O => (c1, RSuccess b, tr, dl1)
     | S a => let '(past, dl2) := pop_dl dl1 in
              if past then (c1, RSuccess b, tr, dl2)
-             else refresh_d answer ll adv a {| seeds := seeds c1; dead := dead c1; known := adv |} tr dl2
+             else refresh_d answer ll adv a {| seeds := seeds c1; dead := dead c1; known := adv a |} tr dl2
     end
   | _ =>
     let c2 := match st with PDeadline => c1 | _ => resurrect c1 end in
@@ -128,7 +128,7 @@ Proof.
   intros answer ll adv attempts. induction attempts as [|a IH]; intros c tried b r E A L;
     rewrite refresh_d_unfold, (pass_d_head answer ll (size c) c tried b r E A), L.
   - exists c, (tried ++ [b]). auto.
-  - simpl. destruct (IH {| seeds := seeds c; dead := dead c; known := adv |} (tried ++ [b]) b r E A L)
+  - simpl. destruct (IH {| seeds := seeds c; dead := dead c; known := adv a |} (tried ++ [b]) b r E A L)
       as (c' & tr & H & S1 & D1).
     exists c', tr. auto.
 Qed.
@@ -158,7 +158,7 @@ Qed.
 (* the scenario of a timed-out pass: one seed, no known broker, the seed fails and the deadline passes meanwhile;
    the seed is back in the seed list, and a recovered seed makes the next refresh succeed *)
 Example deadline_example :
-  refresh_d (fun _ => Fails) no_ll [] 0 {| seeds := [101]; dead := []; known := [] |} [] [false; true] =
+  refresh_d (fun _ => Fails) no_ll (fun _ => []) 0 {| seeds := [101]; dead := []; known := [] |} [] [false; true] =
   ({| seeds := [101]; dead := []; known := [] |}, ROutOfBrokers, [101], [true]) /\
   refresh (fun _ => Answers) 0 {| seeds := [101]; dead := []; known := [] |} [] =
   ({| seeds := [101]; dead := []; known := [] |}, RSuccess 101, [101]).
